@@ -21,17 +21,17 @@ Example C15_hevc_pps_hyp :
   /\ pp_scc_flag (expected_hpps ex_hpps_tiles) = true.
 Proof. vm_compute. repeat split; reflexivity. Qed.
 
-(* Full statement (target): the same without the last hypothesis (the header of a valid slice is
-   far shorter than 2^32 bytes; the bound is what is still to be derived from hslice_valid). *)
-Theorem C15_hevc_slice_partial : forall spsmap ppsmap sp pp v,
+(* sp: the SPS the PPS refers to, pp: the PPS the slice refers to; spsmap / ppsmap are otherwise
+   arbitrary.  hslice_rps_guard is the exact guard that excludes known finding C15-F11.  s_size of the
+   expected value = nbytes_at (hraw_slice ..) (header bits incl. byte_alignment()). *)
+Theorem C15_hevc_slice : forall spsmap ppsmap sp pp v,
   hsps_valid sp = true -> hpps_valid pp = true -> hslice_valid sp pp v = true ->
   hslice_rps_guard sp pp v = true ->
   ppsmap (sx_slice_pic_parameter_set_id v) = Some (expected_hpps pp) ->
   spsmap (sx_pps_seq_parameter_set_id pp) = Some (expected_hsps sp) ->
-  nbytes_at (hraw_slice sp pp v) (hslice_size_bits sp pp v) < 4294967296 ->
   hparse_slice_br spsmap ppsmap (hnalu_slice sp pp v) = Ok (expected_hslice sp pp v).
-Proof. exact hevc_slice_sz. Qed.
-Print Assumptions C15_hevc_slice_partial.
+Proof. exact hevc_slice. Qed.
+Print Assumptions C15_hevc_slice.
 
 (* known finding C15-F11: an inter-predicted set selected from the SPS contributes 0 to the parser's
    NumPicTotalCurr, so ref_pic_lists_modification() is skipped *)
